@@ -29,6 +29,12 @@ CHECKS = {
          "exactly when the reference rejects, with no member opened before validation or after rejection; tell() preservation of validate_zip_bytesio.",
          "Base packages are repository fixtures re-packed by zipfile; the 'no extractor opens ZipFile directly' clause is observed at run time on the driven paths only; the entry-count clause is not "
          "judged where counting directories would change the verdict.", "DESIGN.md §4 C11"),
+ "C18": ("fault_enumeration", "Hypothesis-generated Graph libraries and operations against a reference walk; exhaustive enumeration of (request index x fault kind) per run with fault-free retry",
+         "For each generated library and operation the healthy result is compared (multiset, every field, parent path) with an independent reference walk and filter predicate; then every request "
+         "index k of that run x 11 fault kinds is injected on a cold and on a warm client: the error must be of the client's family with the injected status and failing URL, every response handed "
+         "out must be closed, and a retry on the same client must return the complete listing.",
+         "The transport is a simulation of Graph (paging via @odata.nextLink, path and id addressing); 404 on the folder lookup is treated as a legitimate answer; fault kinds are those listed in the property "
+         "(timeouts/partial reads are not modelled).", "DESIGN.md §4 C18"),
 }
 NOT_YET = {}
 
